@@ -8,11 +8,33 @@ pub mod universe;
 
 use wit_parser::{Resolve, WorldId};
 
+/// Keep glibc malloc from returning memory to the kernel after every generation (the
+/// mmap/munmap + page-fault churn was half of the run time).
+pub fn tune_malloc() {
+    unsafe {
+        libc::mallopt(libc::M_MMAP_THRESHOLD, 1 << 30);
+        libc::mallopt(libc::M_TRIM_THRESHOLD, 1 << 30);
+        libc::mallopt(libc::M_TOP_PAD, 64 << 20);
+    }
+}
+
 /// "Valid world" = accepted by wit-parser (parse + resolve + world selection, done by
 /// `backends::load`) *and* encodable as a component-model WIT package that passes the
 /// wasmparser validator with every proposal enabled. The second half drops inputs such as
 /// `flags` with more than 32 members or `stream<borrow<..>>` that wit-parser alone lets through.
 pub fn component_valid(resolve: &Resolve, world: WorldId) -> Result<(), String> {
+    // The component-model explainer forbids `borrow` inside the element type of a `future` /
+    // `stream`; wit-parser and wasmparser 0.257 let it through. Such worlds are treated as
+    // not valid (dropped and counted) rather than judged.
+    for (_, def) in resolve.types.iter() {
+        if let wit_parser::TypeDefKind::Future(Some(p)) | wit_parser::TypeDefKind::Stream(Some(p)) =
+            &def.kind
+        {
+            if contains_borrow(resolve, p, 0) {
+                return Err("`borrow` inside the element type of a future/stream (disallowed by the component-model spec; the validators are lenient)".into());
+            }
+        }
+    }
     let pkg = resolve.worlds[world]
         .package
         .ok_or_else(|| "world without package".to_string())?;
@@ -20,6 +42,66 @@ pub fn component_valid(resolve: &Resolve, world: WorldId) -> Result<(), String> 
     let mut v = wasmparser::Validator::new_with_features(wasmparser::WasmFeatures::all());
     v.validate_all(&bytes).map_err(|e| format!("{e:#}"))?;
     Ok(())
+}
+
+fn contains_borrow(resolve: &Resolve, ty: &wit_parser::Type, depth: usize) -> bool {
+    use wit_parser::{Handle, Type, TypeDefKind as K};
+    let Type::Id(id) = ty else { return false };
+    if depth > 64 {
+        return false;
+    }
+    let rec = |t: &Type| contains_borrow(resolve, t, depth + 1);
+    match &resolve.types[*id].kind {
+        K::Handle(Handle::Borrow(_)) => true,
+        K::Record(r) => r.fields.iter().any(|f| rec(&f.ty)),
+        K::Tuple(t) => t.types.iter().any(rec),
+        K::Variant(v) => v.cases.iter().any(|c| c.ty.as_ref().map(&rec).unwrap_or(false)),
+        K::Option(t) | K::List(t) | K::FixedLengthList(t, _) | K::Type(t) => rec(t),
+        K::Map(k, v) => rec(k) || rec(v),
+        K::Result(r) => {
+            r.ok.as_ref().map(&rec).unwrap_or(false) || r.err.as_ref().map(&rec).unwrap_or(false)
+        }
+        K::Future(t) | K::Stream(t) => t.as_ref().map(&rec).unwrap_or(false),
+        _ => false,
+    }
+}
+
+/// Name of the function enclosing `line` of the source file `abs` (nearest preceding `fn name`),
+/// so that two `todo!()` in one file are two keys while line shifts do not change a key.
+pub fn enclosing_fn(abs: &str, line: &str) -> Option<String> {
+    let n: usize = line.parse().ok()?;
+    let src = std::fs::read_to_string(abs).ok()?;
+    let lines: Vec<&str> = src.lines().collect();
+    for l in lines[..n.min(lines.len())].iter().rev() {
+        if let Some(i) = l.find("fn ") {
+            let before_ok = i == 0 || !l[..i].chars().last().map(|c| c.is_alphanumeric() || c == '_').unwrap_or(false);
+            let name: String = l[i + 3..]
+                .chars()
+                .take_while(|c| c.is_alphanumeric() || *c == '_')
+                .collect();
+            if before_ok && !name.is_empty() && !l.trim_start().starts_with("//") {
+                return Some(name);
+            }
+        }
+    }
+    None
+}
+
+/// Violation key of a panic: `<backend>:<repo-relative file>#<enclosing fn>:<normalised message>`.
+pub fn panic_key(backend: &str, raw: &str) -> (String, String) {
+    let (file, msg, line) = split_panic(raw);
+    let abs = raw.rfind(" @ ").map(|i| &raw[i + 3..]).unwrap_or("");
+    let abs = abs.rfind(':').map(|i| &abs[..i]).unwrap_or(abs);
+    thread_local! {
+        static CACHE: std::cell::RefCell<std::collections::HashMap<(String, String), String>> = Default::default();
+    }
+    let f = CACHE.with(|c| {
+        c.borrow_mut()
+            .entry((abs.to_string(), line.clone()))
+            .or_insert_with(|| enclosing_fn(abs, &line).map(|f| format!("#{f}")).unwrap_or_default())
+            .clone()
+    });
+    (format!("{backend}:{file}{f}:{msg}"), format!("{file}:{line}"))
 }
 
 /// `message @ /abs/path/file.rs:LINE` → (`repo-relative file`, `normalised message`, line)
@@ -48,8 +130,12 @@ pub fn split_panic(p: &str) -> (String, String, String) {
     (file, normalise_msg(msg), line.to_string())
 }
 
-/// digits → N, whitespace collapsed, at most 100 characters: one defect = one key.
+/// digits → N, whitespace collapsed, Debug-printed values cut after their type name
+/// (`FixedLengthListLift { element: .. }` → `FixedLengthListLift`), at most 100 characters:
+/// one defect = one key.
 pub fn normalise_msg(m: &str) -> String {
+    let m = cut_debug(m);
+    let m = m.as_str();
     let mut out = String::new();
     let mut last_digit = false;
     let mut last_space = false;
@@ -80,14 +166,46 @@ pub fn normalise_msg(m: &str) -> String {
     }
 }
 
-/// The tests/codegen corpus: every `*.wit` file and every directory, sorted.
+/// Cut at the first `(` or ` {` that directly follows a CamelCase identifier.
+fn cut_debug(m: &str) -> String {
+    let b: Vec<char> = m.chars().collect();
+    let mut i = 0;
+    while i < b.len() {
+        if b[i].is_ascii_uppercase() && (i == 0 || !(b[i - 1].is_alphanumeric() || b[i - 1] == '_' || b[i - 1] == ':')) {
+            let mut j = i;
+            while j < b.len() && (b[j].is_ascii_alphanumeric() || b[j] == '_') {
+                j += 1;
+            }
+            let has_lower = b[i..j].iter().any(|c| c.is_ascii_lowercase());
+            let brace = j + 1 < b.len() && b[j] == ' ' && b[j + 1] == '{';
+            if has_lower && j < b.len() && (b[j] == '(' || brace) {
+                return b[..j].iter().collect();
+            }
+            i = j.max(i + 1);
+        } else {
+            i += 1;
+        }
+    }
+    m.to_string()
+}
+
+/// The tests/codegen corpus, sorted.
 pub fn corpus() -> Vec<String> {
     let dir = format!("{}/tests/codegen", vcommon::repo_root());
     let mut v: Vec<String> = std::fs::read_dir(&dir)
         .unwrap_or_else(|e| vcommon::machinery(&format!("cannot read {dir}: {e}")))
         .filter_map(|e| e.ok())
         .map(|e| e.path())
-        .filter(|p| p.is_dir() || p.extension().map(|x| x == "wit").unwrap_or(false))
+        // like crates/test: `*.wit` files, and `<dir>/wit` for directories that have one
+        // (the wasi-* directories are unpopulated submodules and are skipped there too)
+        .filter_map(|p| {
+            if p.is_dir() {
+                let w = p.join("wit");
+                w.is_dir().then_some(w)
+            } else {
+                p.extension().map(|x| x == "wit").unwrap_or(false).then_some(p)
+            }
+        })
         .map(|p| p.to_string_lossy().into_owned())
         .collect();
     v.sort();
